@@ -63,7 +63,11 @@ func ChildMain(specPath string) error {
 	}
 	r.AfterWrite = func(i int) {
 		// plain write(2), no buffering: survives process death
-		_, _ = ack.Write([]byte(fmt.Sprintf("%d\n", i)))
+		seq := uint64(0)
+		if v, ok := r.Eng.GetStats()["storage_last_sequence"].(uint64); ok {
+			seq = v
+		}
+		_, _ = ack.Write([]byte(fmt.Sprintf("%d %d\n", i, seq)))
 	}
 	for i := spec.From; i < spec.To; i++ {
 		mm, err := r.Do(i)
@@ -97,8 +101,9 @@ func ChildMain(specPath string) error {
 type ChildResult struct {
 	ExitCode   int
 	Crashed    bool
-	Acked      []int  // indexes of acknowledged write steps, in order
-	WriteError string // first write error reported by the child, if any
+	Acked      []int    // indexes of acknowledged write steps, in order
+	AckedSeq   []uint64 // storage_last_sequence reported right after each acknowledged write
+	WriteError string   // first write error reported by the child, if any
 	ErrStep    int
 	Stderr     string
 	Profile    map[string]int
@@ -150,8 +155,10 @@ func RunChild(spec ChildSpec, scratch string, tag string) (*ChildResult, error) 
 				continue
 			}
 			var st int
-			if _, err := fmt.Sscanf(ln, "%d", &st); err == nil {
+			var sq uint64
+			if n, _ := fmt.Sscanf(ln, "%d %d", &st, &sq); n >= 1 {
 				res.Acked = append(res.Acked, st)
+				res.AckedSeq = append(res.AckedSeq, sq)
 			}
 		}
 	}
